@@ -5,6 +5,7 @@ import SJ.Props.C19Map
 import SJ.Props.C19Value
 import SJ.Props.C19Struct
 import SJ.Props.C19Seq
+import SJ.Props.C19Utf8
 #print axioms SJ.Props.C19.runPrefix_feed
 #print axioms SJ.Props.C19.c19_captured_reparses
 #print axioms SJ.Props.C19.skipWs_prefix
@@ -32,3 +33,8 @@ import SJ.Props.C19Seq
 #print axioms SJ.Props.C19.c19_field_capture
 #print axioms SJ.Props.C19.c19_field_text
 #print axioms SJ.Props.C19Seq.c19_seq_capture
+#print axioms SJ.Props.C19.c19_top_complete_valid_input
+#print axioms SJ.Props.C19.c19_nested_capture_valid_input
+#print axioms SJ.Props.C19.c19_nested_complete_valid_input
+#print axioms SJ.Props.C19.c19_nested_capture_map_valid_input
+#print axioms SJ.Props.C19.c19_field_capture_valid_input
